@@ -112,6 +112,30 @@ SPECS = {
             "encoding/json is trusted as a JSON parser with float64 numbers; the DedupCounter regular expression is not modelled",
         ],
     },
+    "C14": {
+        "corr": ["Hist"],
+        "engines": [
+            {"name": "undo", "n": {"quick": 150, "thorough": 2500}},
+        ],
+        "explanation": "Theorem: on the history model (two stacks of entries of reverse operations, capacity 50, redo cleared by a new update) with the content edits of C14's alphabet (counter increase with 32/64-bit wrap, object set/delete, array insert/delete, text replace) k undos show exactly the content recorded k steps back and j <= k redos the content k - j steps back, for every program and every k within the capacity; proved generically for every executor whose reverses invert exactly, and the content edits are shown to be one. Engine: single-client sessions (updates, undo, redo, further updates cutting the redo branch, sessions longer than the capacity) on a real Document; content after every Undo/Redo compared with the recorded one, CanUndo/CanRedo compared with the walk; every session is replayed through the Coq model step by step. Tree content edits are judged by recorded XML; approximate kinds (styles, moves, set-by-index, merges, splits): Undo/Redo never fail or panic, clone == root, and a peer fed with all changes shows the author's content.",
+        "assumptions": [
+            "PARTIAL: tree edits and the approximate kinds have no Coq model (engine oracles only)",
+            "indices that would cut a UTF-16 surrogate pair are not generated (finding P26 of C07)",
+            "an index beyond the current size is a no-op that is its own reverse in the model; the public API panics on it and the generated programs contain none",
+        ],
+    },
+    "C15": {
+        "corr": [],
+        "exhaustive": True,
+        "engines": [
+            {"name": "undosync", "n": {"quick": 1, "thorough": 1}},
+            {"name": "hist", "tag": "c15", "extra": "prop=C15", "n": {"quick": 300, "thorough": 5000}},
+        ],
+        "explanation": "Exhaustive small scope on real Documents with a minimal in-process server that sends the minimum version vector back (so the clients garbage-collect as with a real server): every sequence over {edit, undo, redo, sync} x 2 clients with <= 3 edits per client, <= 2 undo/redo, >= 1 undo, length <= 5 (quick) / 6 (thorough), per flavor (object, array, text, counter, tree, array with moves), run to quiescence: replicas marshal identically, hold the same garbage, clone == root, nothing fails. Random larger histories with undo/redo (2-3 clients, late attachers, in-flight requests, snapshots) on the real server with the convergence, clone==root and server-rebuild oracles. Theorems: the reverse of a counter increase commutes with concurrent increases; the object restore under the old identity is refuted on the ElementRHT model with the witness the engines find (finding P20).",
+        "assumptions": [
+            "PARTIAL: convergence of undo/redo is decided by execution (exhaustive in the small scope), not by a theorem; for objects, text and trees it is refuted (P20)",
+        ],
+    },
     "C04": {
         "corr": ["Proto"],
         "engines": [
